@@ -82,3 +82,13 @@ claim("C10", "model-based property testing (proptest): reference mintable() from
 claim("C11", "model-based property testing (proptest): reference etching validity vs the indexed rune set",
       "Generated names around the minimum, reserved, duplicate, unnamed; commitments of every kind and age; set of runes, ids, numbers, names and lookup tables must equal RefRunes and be mutually consistent.",
       "as C08; commitment look-ups answered by the mock node")
+
+claim("C15", "differential property testing: one generated chain under every optional-index configuration incl. a non-full UTXO index",
+      "All 8 sat/address/transaction flag combinations plus the node-fetch path (hook H4) index the same generated chain; projections onto inscription and rune content must be equal to the full sat index.",
+      "Hook H4 makes a regtest index non-full; blocks below the overridden height are empty by construction.")
+claim("C16", "property-based testing with adversarial generators; oracle = no error, no panic (any thread), follow-up audits",
+      "Adversarial witnesses, runestones, scripts and values on chains valid by construction under all flag combinations and the non-full index; update must return Ok without panics and the C04/C08 audits must hold afterwards.",
+      "Valid by construction; script validity not modelled; background-thread panics are attributed by re-running the case in isolation.")
+claim("C37", "property-based testing: event-stream replay vs index tables over generated histories",
+      "Events from Index::open_with_event_sender are folded (locations, charms, parents, etchings, mints, burns, balances) and compared with the dump.",
+      "Events within one transaction are treated as a set.")
